@@ -4,6 +4,6 @@ CONSTANTS
  LinkCode = FALSE
  DupPathBug = FALSE
  Ids <- ThoroughIds
-INVARIANTS XOnce XComplete XSinglePass XRoundTrip Ordered
+INVARIANTS XOnce XComplete XDocker XSinglePass XRoundTrip Ordered
 PROPERTY Termination
 CHECK_DEADLOCK TRUE
